@@ -1,7 +1,7 @@
 #!/usr/bin/env python3
 """Robustness / sensitivity test of the plan bridges (translator/effects.py): coq/theories/
 Bridge_effects.v (container functions), Bridge_effects_load.v (decoder glue), Bridge_effects_ser.v
-(serializer), Bridge_effects_ref.v (cbor_decref).  Applies textual edits (or an independent agent's
+(serializer), Bridge_effects_ref.v (cbor_decref), Bridge_effects_copy.v (cbor_copy).  Applies textual edits (or an independent agent's
 patch file) to a PRIVATE copy of the library, regenerates coq/gen with setup.sh's snippet, recompiles
 the bridge file the edit concerns, restores the library.
 
@@ -32,7 +32,7 @@ cd coq
 timeout 300 coqc -Q theories CB -Q gen CBGen gen/Gen_effects%(sfx)s.v || { echo GEN-COMPILE-FAILED; exit 2; }
 if timeout 1800 coqc -Q theories CB -Q gen CBGen theories/Bridge_effects%(sfx)s.v > %(verif)s/coq/bridge_effects.log 2>&1; then echo BRIDGE-PASS; else echo BRIDGE-FAIL; fi
 """
-SFX = {"containers": "", "load": "_load", "ser": "_ser", "ref": "_ref"}
+SFX = {"containers": "", "load": "_load", "ser": "_ser", "ref": "_ref", "copy": "_copy"}
 def regen(group):
     return REGEN % {"verif": VERIF, "sfx": SFX[group]}
 GLUE = ("src/cbor/internal/builder_callbacks.c", "src/cbor.c")
@@ -40,6 +40,8 @@ SERF = ("src/cbor/serialization.c",)
 def group_of(subs, eid=""):
     if eid.startswith("decref-"):
         return "ref"
+    if eid.startswith("copy-"):
+        return "copy"
     files = [f for f, _, _, _ in subs]
     if any(f in SERF for f in files) or any(f == "PATCH" for f in files):
         return "ser"
@@ -175,6 +177,35 @@ DEC_MAP = """        for (size_t i = 0; i < item->metadata.map_metadata.end_ptr;
              i++, handle++) {
           cbor_decref(&handle->key);
           if (handle->value != NULL) cbor_decref(&handle->value);
+        }
+"""
+CP_ARR = """      for (size_t i = 0; i < cbor_array_size(item); i++) {
+        cbor_item_t* entry_copy = cbor_copy(cbor_move(cbor_array_get(item, i)));
+        if (entry_copy == NULL) {
+          cbor_decref(&res);
+          return NULL;
+        }
+        if (!cbor_array_push(res, entry_copy)) {
+          cbor_decref(&entry_copy);
+          cbor_decref(&res);
+          return NULL;
+        }
+        cbor_decref(&entry_copy);
+      }
+      return res;
+"""
+CP_TAG = """      cbor_item_t* item_copy = cbor_copy(cbor_move(cbor_tag_item(item)));
+      if (item_copy == NULL) {
+        return NULL;
+      }
+      cbor_item_t* tag = cbor_build_tag(cbor_tag_value(item), item_copy);
+      cbor_decref(&item_copy);
+      return tag;
+"""
+CP_VALFAIL = """        if (value_copy == NULL) {
+          cbor_decref(&res);
+          cbor_decref(&key_copy);
+          return NULL;
         }
 """
 # (id, kind, [(file, old, new, count)])   kind: P = behaviour preserving, M = meaning changing
@@ -325,9 +356,9 @@ EDITS = [
  ("load-M9", "M", [(CL, "    cbor_decref(&stack.top->item);\n    _cbor_stack_pop(&stack);", "    _cbor_stack_pop(&stack);", 1)]),
  # ---------------- serialization.c ----------------
  ("ser-RC1", "P", [("PATCH", HARM + "/harm1/out_C/RC-1/patch.diff", "", 0)]),
- ("ser-RC8", "P", [("PATCH", HARM + "/harm1/out_C/RC-8/patch.diff", "", 0)]),
+ ("ser-RC8", "P", [("PATCH", os.path.join(VERIF, "tools", "effects_patches", "RC-8.rebased.diff"), "", 0)]),   # rebased over 60b6b56
  ("ser-RF5", "P", [("PATCH", HARM + "/harm2/out_F/RF-5/patch.diff", "", 0)]),
- ("ser-RF6", "P", [("PATCH", HARM + "/harm2/out_F/RF-6/patch.diff", "", 0)]),
+ ("ser-RF6", "P", [("PATCH", os.path.join(VERIF, "tools", "effects_patches", "RF-6.rebased.diff"), "", 0)]),   # rebased over 60b6b56 (the helper keeps the length > 0 guard)
  ("ser-P1", "P", [(SZ, ARR_LOOP, """  size_t i = 0;
   while (i != size) {
     const size_t room = buffer_size - written;
@@ -402,6 +433,54 @@ EDITS = [
  ("decref-M6", "M", [(CM, DEC_MAP, DEC_MAP.replace("          cbor_decref(&handle->key);\n          if (handle->value != NULL) cbor_decref(&handle->value);", "          if (handle->value != NULL) cbor_decref(&handle->value);\n          cbor_decref(&handle->key);"), 1)]),
  ("decref-M7", "M", [(CM, "        if (item->metadata.tag_metadata.tagged_item != NULL)\n          cbor_decref(&item->metadata.tag_metadata.tagged_item);\n        _cbor_free(item->data);", "        _cbor_free(item->data);\n        if (item->metadata.tag_metadata.tagged_item != NULL)\n          cbor_decref(&item->metadata.tag_metadata.tagged_item);", 1)]),
  ("decref-M8", "M", [(CM, "      case CBOR_TYPE_BYTESTRING: {\n        if (cbor_bytestring_is_definite(item)) {\n          _cbor_free(item->data);", "      case CBOR_TYPE_BYTESTRING: {\n        if (cbor_bytestring_is_definite(item)) {", 1)]),
+ # ---------------- cbor_copy (cbor.c) ----------------
+ ("copy-RB8", "P", [("PATCH", HARM + "/harm1/out_B/RB-8/patch.diff", "", 0)]),
+ ("copy-RF4", "P", [("PATCH", HARM + "/harm2/out_F/RF-4/patch.diff", "", 0)]),      # degrades: attach through a type-switching helper
+ ("copy-P1", "P", [(CL, CP_ARR, """      const size_t n = cbor_array_size(item);
+      size_t i = 0;
+      while (i != n) {
+        cbor_item_t* source = cbor_array_get(item, i);
+        cbor_move(source);
+        cbor_item_t* entry_copy = cbor_copy(source);
+        if (!entry_copy) {
+          cbor_decref(&res);
+          return NULL;
+        }
+        const bool pushed = cbor_array_push(res, entry_copy);
+        cbor_decref(&entry_copy);
+        if (!pushed) {
+          cbor_decref(&res);
+          return NULL;
+        }
+        ++i;
+      }
+      return res;
+""", 1)]),
+ ("copy-P2", "P", [(CL, CP_TAG, """      cbor_item_t* child = cbor_tag_item(item);
+      cbor_item_t* item_copy = cbor_copy(cbor_move(child));
+      if (item_copy != NULL) {
+        const uint64_t value = cbor_tag_value(item);
+        cbor_item_t* tag = cbor_build_tag(value, item_copy);
+        cbor_decref(&item_copy);
+        return tag;
+      }
+      return NULL;
+""", 1)]),
+ ("copy-P3", "P", [(CL, "  if (negative && res != NULL) cbor_mark_negint(res);\n\n  return res;", "  if (res != NULL) {\n    if (negative) cbor_mark_negint(res);\n  }\n  return res;", 1),
+                   (CL, "        cbor_item_t* value_copy = cbor_copy(it[i].value);", "        const struct cbor_pair* pair = it + i;\n        cbor_item_t* value_copy = cbor_copy(pair->value);", 1)]),
+ ("copy-M1", "M", [(CL, "          if (!cbor_bytestring_add_chunk(res, chunk_copy)) {", "          if (!cbor_bytestring_add_chunk(res, cbor_bytestring_chunks_handle(item)[i])) {", 1)]),
+ ("copy-M2", "M", [(CL, CP_ARR, CP_ARR.replace("        cbor_decref(&entry_copy);\n      }\n      return res;", "      }\n      return res;"), 1)]),
+ ("copy-M3", "M", [(CL, CP_ARR, CP_ARR.replace("        if (entry_copy == NULL) {\n          cbor_decref(&res);\n", "        if (entry_copy == NULL) {\n"), 1)]),
+ ("copy-M4", "M", [(CL, "        res = cbor_new_definite_array(cbor_array_size(item));", "        res = cbor_new_definite_array(cbor_array_allocated(item));", 1)]),
+ ("copy-M5", "M", [(CL, "  if (negative && res != NULL) cbor_mark_negint(res);\n", "", 1)]),
+ ("copy-M6", "M", [(CL, "  if (negative && res != NULL) cbor_mark_negint(res);", "  if (negative) cbor_mark_negint(res);", 1)]),
+ ("copy-M7", "M", [(CL, "      res = cbor_build_uint32(cbor_get_uint32(item));", "      res = cbor_build_uint64(cbor_get_uint32(item));", 1)]),
+ ("copy-M8", "M", [(CL, CP_VALFAIL, CP_VALFAIL.replace("          cbor_decref(&key_copy);\n", ""), 1)]),
+ ("copy-M9", "M", [(CL, "          cbor_item_t* chunk_copy =\n              cbor_copy(cbor_string_chunks_handle(item)[i]);", "          cbor_item_t* chunk_copy =\n              cbor_incref(cbor_string_chunks_handle(item)[i]);", 1)]),
+ ("copy-M10", "M", [(CL, CP_TAG, CP_TAG.replace("      cbor_decref(&item_copy);\n", ""), 1)]),
+ ("copy-M11", "M", [(CL, CP_ARR, CP_ARR.replace("          cbor_decref(&entry_copy);\n          cbor_decref(&res);", "          cbor_decref(&res);\n          cbor_decref(&entry_copy);"), 1)]),
+ ("copy-M12", "M", [(CL, "        cbor_item_t* key_copy = cbor_copy(it[i].key);", "        cbor_item_t* key_copy = cbor_copy(it[i].value);", 1)]),
+ ("copy-M13", "M", [(CL, "      return _cbor_copy_int(item, true);", "      return _cbor_copy_int(item, false);", 1)]),
 ]
 
 def sh(cmd):
@@ -449,10 +528,11 @@ def main():
         print("%-12s %s -> %-5s %-34s %s %s" % (eid, kind, verdict, where, uns[0] if uns else "", "" if expected else "<<< UNEXPECTED"), flush=True)
         results.append((eid, kind, verdict, where))
     sh("git -C %s checkout -- ." % REPO)
-    sh(regen("containers")); sh(regen("load")); sh(regen("ser")); sh(regen("ref"))   # leave coq/gen regenerated from the restored tree
+    sh(regen("containers")); sh(regen("load")); sh(regen("ser")); sh(regen("ref")); sh(regen("copy"))   # leave coq/gen regenerated from the restored tree
     try:
         os.remove(os.path.join(VERIF, "coq", "bridge_effects.log"))
     except OSError:
         pass
 
-main()
+if __name__ == "__main__":
+    main()
